@@ -1588,6 +1588,16 @@ def touch_command_witness(ctx):
             for d in WITNESS_PROJECT[nme][0]:
                 if WITNESS_PROJECT[d][1] and WITNESS_PROJECT[nme][1] and max(pos[p] for p in WITNESS_PROJECT[d][1]) > min(pos[p] for p in WITNESS_PROJECT[nme][1]):
                     diffs.append(f"`{label}`: outputs of {nme} are touched before those of its dependency {d}: {nme} would look stale afterwards")
+        for i, e in enumerate(ev):
+            if e[0] == "touch":
+                parent = e[1].rsplit("/", 1)[0]
+                mk = [m for m in ev[:i] if m[0] == "mkdir" and m[1] == parent]
+                if not mk:
+                    diffs.append(f"`{label}`: {e[1]} is touched without creating its directory first: a missing output in a directory that does not exist yet makes the command fail")
+                    break
+                if not (mk[-1][2].get("parents") and mk[-1][2].get("exist_ok")):
+                    diffs.append(f"`{label}`: the directory of {e[1]} is created with {mk[-1][2]}: it must tolerate existing directories and create missing parents")
+                    break
         upd = [e[1] for e in ev if e[0] == "update"]
         if sorted(upd) != sorted(cone):
             diffs.append(f"`{label}` records the spec hashes of {sorted(upd)}, expected those of the cone {sorted(cone)} (each once)")
@@ -1928,7 +1938,8 @@ def eval_task(ctx, deps=None, rc=0, timeout=False, spawn_fails=False, log_fails=
     timeout_flag = [timeout]
 
     def h_communicate(recv, *a, **k):
-        ev.append(("communicate",))
+        cur = states.get(7)
+        ev.append(("communicate", cur.member if isinstance(cur, EnumVal) else cur))
         return ("COMM", (b"OUT", b"ERR"))
 
     def h_open(path, mode="r", *a, **k):
@@ -1999,6 +2010,9 @@ def _task_invariants(label, out):
             diffs.append(f"{label}: the process is not started as a session/group leader, so its children cannot be signalled")
         if kw.get("cwd") != "/work":
             diffs.append(f"{label}: the process is started in {kw.get('cwd')!r}, not in the task's working directory")
+    for e in ev:
+        if e[0] == "communicate" and len(e) > 1 and e[1] != "RUNNING":
+            diffs.append(f"{label}: while its process runs the task's state is {e[1]}, not RUNNING")
     if out["raised"]:
         diffs.append(f"{label}: the coroutine ends with an unhandled {out['raised']} (the task never reaches a final state and its dependents hang)")
     if out["final"] not in ("COMPLETED", "FAILED", "KILLED", "CANCELLED"):
